@@ -40,6 +40,7 @@ type Cfg struct {
 	AvoidUnwalked bool // do not place references at the positions the loader never resolves (known finding)
 	NoDeep        bool
 	NoWholeFile   bool
+	NoChains      bool
 }
 
 type gen struct {
@@ -168,7 +169,7 @@ func (g *gen) ensureComponent(file, kind string, depth int) string {
 	ph := M{} // placeholder so that nested generation can refer back (cycles)
 	m[name] = ph
 	var v M
-	if depth > 0 && g.chance(5, "chain") && kind != "callback" {
+	if depth > 0 && !g.cfg.NoChains && g.chance(5, "chain") && kind != "callback" {
 		// the component is itself a reference: a chain
 		g.feat["chain"]++
 		g.noInProg++
@@ -336,11 +337,17 @@ func (g *gen) objectN(kind, file string, depth int) M {
 				o["additionalProperties"] = g.slot("schema", file, depth)
 			}
 		}
+		// allOf / not do not consume the value: a reference cycle through them alone would be
+		// an ill-founded schema (validation recurses forever), so no back-edges below them
 		if has("allOf") {
+			g.noInProg++
 			o["allOf"] = []any{g.slot("schema", file, depth)}
+			g.noInProg--
 		}
 		if has("not") && g.chance(3, "not2") {
+			g.noInProg++
 			o["not"] = g.slot("schema", file, depth)
+			g.noInProg--
 		}
 	case "parameter":
 		o["name"] = "q" + o["x-vid"].(string)
@@ -349,12 +356,14 @@ func (g *gen) objectN(kind, file string, depth int) M {
 			mt := M{"schema": g.slot("schema", file, depth)}
 			if !g.cfg.AvoidUnwalked && g.chance(2, "pcex") {
 				mt["examples"] = M{"e": g.slot("example", file, depth)}
+				mt["schema"] = g.anySchema(file)
 			}
 			o["content"] = M{"application/json": mt}
 		} else {
 			o["schema"] = g.slotOrLeaf("schema", file, depth, deep)
 			if deep && !g.cfg.AvoidUnwalked && g.chance(3, "pex") {
 				o["examples"] = M{"e": g.slot("example", file, depth)}
+				o["schema"] = g.anySchema(file)
 			}
 		}
 	case "header":
@@ -364,12 +373,14 @@ func (g *gen) objectN(kind, file string, depth int) M {
 			o["schema"] = g.slotOrLeaf("schema", file, depth, deep)
 			if deep && !g.cfg.AvoidUnwalked && g.chance(4, "hex") {
 				o["examples"] = M{"e": g.slot("example", file, depth)}
+				o["schema"] = g.anySchema(file)
 			}
 		}
 	case "requestBody":
 		mt := M{"schema": g.slotOrLeaf("schema", file, depth, deep)}
 		if has("rbex") {
 			mt["examples"] = M{"e": g.slot("example", file, depth)}
+			mt["schema"] = g.anySchema(file)
 		}
 		if deep && !g.cfg.AvoidUnwalked && g.chance(4, "rbenc") {
 			mt["encoding"] = M{"p": M{"headers": M{"X-Enc": g.slot("header", file, depth)}}}
@@ -384,6 +395,7 @@ func (g *gen) objectN(kind, file string, depth int) M {
 			mt := M{"schema": g.slot("schema", file, depth)}
 			if g.chance(3, "rex") {
 				mt["examples"] = M{"e": g.slot("example", file, depth)}
+				mt["schema"] = g.anySchema(file)
 			}
 			o["content"] = M{"application/json": mt}
 		}
@@ -415,6 +427,12 @@ func (g *gen) objectN(kind, file string, depth int) M {
 		}
 	}
 	return o
+}
+
+// anySchema is an untyped schema: every example value satisfies it (examples may be shared
+// components with a fixed value, so the schema next to them must not constrain the type).
+func (g *gen) anySchema(file string) M {
+	return M{"x-vid": g.newID("schema", file), "description": "any"}
 }
 
 func (g *gen) slotOrLeaf(kind, file string, depth int, deep bool) M {
